@@ -87,6 +87,24 @@ class FakeUnixTransport(FakeTransport):
         self.log.append(('fd', fd))
 
 
+class _PlainUnixTransport(FakeTransport):
+    unix = True
+
+    def sendFileDescriptor(self, fd):
+        self.log.append(('fd', fd))
+
+
+def wrapped_unix_transport(*a, **kw):
+    """a UNIX transport that provides IUNIXTransport as an instance, not
+    through its class - what twisted.protocols.policies.ProtocolWrapper
+    (TimeoutFactory, TrafficLoggingFactory, ...) presents to the protocol it
+    wraps"""
+    from zope.interface import directlyProvides
+    t = _PlainUnixTransport(*a, **kw)
+    directlyProvides(t, interfaces.IUNIXTransport)
+    return t
+
+
 CONNECTION_DONE = tierror.ConnectionDone
 
 
@@ -239,13 +257,17 @@ class Peer:
     def send_raw(self, data):
         self.proto.dataReceived(data)
 
-    def call_bus(self, member, sig='', body=(), flags=0):
+    def call_bus(self, member, sig='', body=(), flags=0, sender=None):
+        """sender: what this peer writes into the optional SENDER field (a
+        bus ignores it and stamps the true name)"""
         s = self.next_serial()
-        self.send_raw(R.encode_message(
-            R.METHOD_CALL, s,
-            {'path': '/org/freedesktop/DBus', 'member': member,
+        f = {'path': '/org/freedesktop/DBus', 'member': member,
              'interface': 'org.freedesktop.DBus',
-             'destination': 'org.freedesktop.DBus'}, sig, body, flags=flags))
+             'destination': 'org.freedesktop.DBus'}
+        if sender is not None:
+            f['sender'] = sender
+        self.send_raw(R.encode_message(R.METHOD_CALL, s, f, sig, body,
+                                       flags=flags))
         return s
 
     def hello(self):
